@@ -29,6 +29,7 @@ type Run struct {
 	Reach    []string // vReach ids that must be hit (besides every assert)
 	Note     string
 	NoNative bool // sampled paths are not re-run natively (schedule choices / virtual time are not reproducible on the real runtime)
+	Race     bool // happens-before data-race detection on every path (interp/race.go)
 	Modelled bool // part of the environment is an engine-level model (e.g. crypto/tls): samples are still validated natively, but a counterexample that only exists under the model is reported as found
 }
 
@@ -230,6 +231,9 @@ func CmdCheck(args []string) int {
 				it.InitAllow = DefaultInitAllow
 				it.Params = params
 				it.Known = activeKnown
+				if r.Race {
+					it.RaceOn()
+				}
 			},
 		})
 		if err != nil {
@@ -301,7 +305,10 @@ func CmdCheck(args []string) int {
 				// exist natively, so the solver's path through the real code's SSA
 				// is reported as it is (the replay file records the inputs).
 				fmt.Printf("  counterexample for %s/%s found by the engine on the real code's SSA (native run under the real scheduler / without the model: %s): %s\n", label, v.Assert, res, summarizeInputs(v.Inputs))
-				res = "confirmed"
+				res = "engine"
+				if v.Msg != "" {
+					fmt.Printf("    %s\n", v.Msg)
+				}
 			}
 			handleReplay(&rc, &violationLines, &problems, ev, id, path, label, v, res, out)
 		}
@@ -361,6 +368,9 @@ func handleReplay(rc *int, lines *[]string, problems *[]string, ev *Evidence, id
 		*rc = 1
 		*lines = append(*lines, fmt.Sprintf("VIOLATION property=%s replay=%s", id, path))
 		fmt.Printf("  counterexample for %s/%s confirmed natively: %s\n", label, v.Assert, summarizeInputs(v.Inputs))
+	case "engine":
+		*rc = 1
+		*lines = append(*lines, fmt.Sprintf("VIOLATION property=%s replay=%s", id, path))
 	case "passed":
 		*problems = append(*problems, fmt.Sprintf("%s: UNCONFIRMED counterexample for %q (native replay passes; engine/stub artefact): %s", label, v.Assert, path))
 		ev.Unconfirmed++
